@@ -5,6 +5,7 @@ package main
 
 import (
 	"fmt"
+	"go/token"
 	"go/types"
 	"strings"
 
@@ -133,6 +134,81 @@ func ruleRenderReturnsFlush(w *World, r *Report) {
 					ok = true
 				}
 			}
+		}
+		// C14-B: what the render functions write to is the caller's own BufWriter or a bufio.Writer around the caller's writer
+		{
+			save := r.curRule
+			r.Rule("C14-B", "The BufWriter that Render hands to the render functions and flushes is, on every path, either the caller's own writer (the comma-ok assertion w.(util.BufWriter) of Render's writer parameter) or the *bufio.Writer returned by bufio.NewWriter / NewWriterSize applied to that parameter. bufio.Writer's sticky error is what makes the accepted bytes a prefix and makes Flush report a failure that happened in the middle; an adapter of the library's own (unbuffered pass-through, a pooled buffer replayed later) has neither guarantee.")
+			var vals []ssa.Value
+			if al, isAl := captured.(*ssa.Alloc); isAl {
+				for _, ref := range referrersOf(al) {
+					if st, isSt := ref.(*ssa.Store); isSt && st.Addr == ssa.Value(al) {
+						vals = append(vals, st.Val)
+					}
+				}
+			} else {
+				vals = []ssa.Value{captured}
+			}
+			var leaves []ssa.Value
+			seenV := map[ssa.Value]bool{}
+			var walkV func(v ssa.Value)
+			walkV = func(v ssa.Value) {
+				if seenV[v] {
+					return
+				}
+				seenV[v] = true
+				switch x := v.(type) {
+				case *ssa.Phi:
+					for _, e := range x.Edges {
+						walkV(e)
+					}
+				case *ssa.MakeInterface:
+					walkV(x.X)
+				case *ssa.ChangeInterface:
+					walkV(x.X)
+				case *ssa.UnOp:
+					if al2, isAl := x.X.(*ssa.Alloc); isAl && x.Op == token.MUL && types.IsInterface(deref(al2.Type())) {
+						for _, ref := range referrersOf(al2) {
+							if st, isSt := ref.(*ssa.Store); isSt && st.Addr == ssa.Value(al2) {
+								walkV(st.Val)
+							}
+						}
+						return
+					}
+					leaves = append(leaves, v)
+				default:
+					leaves = append(leaves, v)
+				}
+			}
+			for _, v := range vals {
+				walkV(v)
+			}
+			bkey := key + ": origin of the BufWriter"
+			var badOrigin []string
+			for _, lf := range leaves {
+				okLeaf := false
+				if ex, isEx := lf.(*ssa.Extract); isEx && ex.Index == 0 {
+					if ta, isTA := ex.Tuple.(*ssa.TypeAssert); isTA && ta.CommaOk && sa.isBufWriter(ta.AssertedType) && ta.X == ssa.Value(fn.Params[1]) {
+						okLeaf = true
+					}
+				}
+				if c, isC := lf.(*ssa.Call); isC {
+					if cal := c.Common().StaticCallee(); cal != nil && (cal.String() == "bufio.NewWriter" || cal.String() == "bufio.NewWriterSize") && c.Common().Args[0] == ssa.Value(fn.Params[1]) {
+						okLeaf = true
+					}
+				}
+				if !okLeaf {
+					badOrigin = append(badOrigin, shortVal(lf))
+				}
+			}
+			if len(leaves) == 0 {
+				r.Unknown(bkey, w.FnPos(fn), "no origin of the captured writer found")
+			} else if len(badOrigin) == 0 {
+				r.OK(bkey, w.FnPos(fn), fmt.Sprintf("%d origin(s): the caller's BufWriter or bufio.NewWriter(w)", len(leaves)))
+			} else {
+				r.Bad(bkey, w.FnPos(fn), "the writer handed to the render functions can be "+strings.Join(badOrigin, ", ")+": not the caller's BufWriter and not a bufio.Writer around the caller's writer, so neither the sticky error nor Flush's report of an earlier failure is guaranteed")
+			}
+			r.curRule = save
 		}
 		if ok {
 			r.OK(key+": reuse of caller's BufWriter", w.FnPos(fn), "w.(util.BufWriter) is tried first")
